@@ -31,9 +31,115 @@ def _edits_shrink(case):
     return out
 
 
+import re
+
+
+def _chain_compare(case, obs, model):
+    m = re.sub(r' ; WF [01]$', '', model)
+    if obs.startswith('BIND err') and m.startswith('BIND err'):
+        return True
+    return obs == m
+
+
+def _sections(obs):
+    d = {}
+    for sec in obs.split(' ; '):
+        t = sec.split(' ')
+        d[t[0]] = t[1:]
+    return d
+
+
+def _nt_bound(case, obs):
+    return obs.startswith('BIND ok')
+
+
+def _nt_c01(case, obs):
+    if not obs.startswith('BIND ok'):
+        return False
+    return any(t[0] in 'CE' and '()' not in t.split('>')[0] for t in _sections(obs).get('LOG', []))
+
+
+def _nt_c02(case, obs):
+    if not obs.startswith('BIND ok'):
+        return False
+    s = _sections(obs)
+    return any(t[0] == 'J' and not t.endswith('()') for t in s.get('LOG', [])) or any(t.startswith('x(') and t != 'x()' for t in s.get('RES', []))
+
+
+def _nt_c05(case, obs):
+    return obs.startswith('BIND ok') and len(_sections(obs).get('LOG', [])) >= 3
+
+
+def _nt_c07(case, obs):
+    if not obs.startswith('BIND ok'):
+        return False
+    return any(t.split(':')[1] in ('1', '2') and t.endswith(':1') for t in _sections(obs).get('ORDER', []))
+
+
+def chain_stream(nq, nt, nontrivial, name='chain'):
+    return dict(name=name, n_quick=nq, n_thorough=nt, nontrivial=nontrivial, compare=_chain_compare, wf_check=True)
+
+
+CHAIN_RULE = ('stream chain: provider chains of 1-9 providers over 3-6 of 10 concrete pool types and 4 interfaces (literals, static '
+              'candidates, injectors, fallible injectors with the TerminalError at a random result position and per-serial failure '
+              'masks, wrappers calling inner() 0-3 times with pass-through returns, Parallel, final), annotations Required/Desired/Shun/'
+              'MustConsume/ConsumptionOptional/Loose/AllowReturnShadowing/NonFinal/Cacheable/MustCache/Memoize/Singleton/NotCacheable/'
+              'Cluster, Reflective twins, optional init, sessions of 1-7 init/invoke steps; grown forward so that about half bind; '
+              'one splitmix64 state; the real Bind/init/invoke observation (final working list with class/group/include, remaps, '
+              'results, call log with provenance-tagged values) must equal the extracted Coq model\'s; ')
+CHAIN_NOTE = ('Trusted: Coq kernel, extraction (ExtrOcamlBasic), OCaml driver, Go harness and the verif hooks; Go code is modelled, not verified; '
+              'the refinement theorem assumes the decidable check plan_wf (slot tables injective/disjoint/bounded, every read type has a slot, '
+              'compiled providers = cp_of of the plan), which the run evaluates on every bound case (a case failing it is reported); '
+              'the tie is differential testing bounded by the generator.')
+
 HOOK_COMMITS = ['ae5437e']
 
 PROPS = {
+    'C01': dict(
+        monitor=True,
+        streams=[chain_stream(8000, 300000, _nt_c01)],
+        rule=CHAIN_RULE + 'C01 non-trivial: the chain binds and some provider is called with at least one argument',
+        level_text='Theorem chain_refines (Coq, no axioms): for every case whose plan passes plan_wf, every provider behaviour (wrappers as arbitrary '
+                   'interaction trees over any world) and every init/invoke session, the slot machine that mirrors bind.go/generate.go yields the same '
+                   'results and final world as the environment-passing reference semantics, in which a parameter is by definition the most recent '
+                   'upstream value of its (remapped) type; plus upd_list_last/other (most recent wins, others untouched) and best_match_sound '
+                   '(a different type only via Loose). The whole pipeline model (classification, selection, slots, machine) is tied to /repo by '
+                   'comparing full observations on generated chains.',
+        level_note=CHAIN_NOTE, design_ref='DESIGN.md section 8 (C01)',
+        assumptions=['plan_wf holds on the case (checked on every bound case of the run)', 'reflect.Value.Call passes what it is given'],
+    ),
+    'C02': dict(
+        monitor=True,
+        streams=[chain_stream(8000, 300000, _nt_c02)],
+        rule=CHAIN_RULE + 'C02 non-trivial: the chain binds and a wrapper receives values from inner() or invoke returns values',
+        level_text='Theorems exec_refines_sem / chain_refines (Coq, no axioms): the machine\'s final array represents the reference up environment '
+                   '(final function\'s returns overridden by each wrapper\'s own returns; the environment of the last inner() call; all zero when the '
+                   'remainder did not run); run_sem lemmas state the three clauses of the property on the reference semantics. Tied to /repo by the '
+                   'chain correspondence (values returned by inner() and by invoke carry provenance tags).',
+        level_note=CHAIN_NOTE, design_ref='DESIGN.md section 8 (C02)',
+        assumptions=['plan_wf holds on the case (checked on every bound case of the run)'],
+    ),
+    'C05': dict(
+        monitor=True,
+        streams=[chain_stream(8000, 300000, _nt_c05)],
+        rule=CHAIN_RULE + 'C05 non-trivial: the chain binds and at least three call events are logged',
+        level_text='Theorem sem_order (Coq, no axioms): in the reference semantics, for every program and every choice of inner() call counts, the '
+                   'call log is the listed order, each provider once per traversal, the remainder once per inner() call; exec_refines_sem and '
+                   'static_refines transfer it to the machine (same final world for every behaviour; static part = fold over the listed order). '
+                   'Tied to /repo by comparing the final working order and the call log.',
+        level_note=CHAIN_NOTE, design_ref='DESIGN.md section 8 (C05)',
+        assumptions=['plan_wf holds on the case (checked on every bound case of the run)'],
+    ),
+    'C07': dict(
+        monitor=True,
+        streams=[chain_stream(8000, 300000, _nt_c07)],
+        rule=CHAIN_RULE + 'C07 non-trivial: the chain binds and includes a fallible (static or run) injector',
+        level_text='Theorems sem_fallible_cut / sem_fallible_pass (reference semantics: a failing fallible injector makes the rest irrelevant and yields '
+                   'the all-zero up environment plus error; a nil TerminalError is transparent), exec_refines_sem and static_refines (the machine '
+                   'implements it, run and static part); Coq, no axioms. Tied to /repo by the chain correspondence with failure masks over sessions.',
+        level_note=CHAIN_NOTE, design_ref='DESIGN.md section 8 (C07)',
+        assumptions=['plan_wf holds on the case (checked on every bound case of the run)'],
+    ),
     'C18': dict(
         monitor=True,
         streams=[dict(name='edits', n_quick=4000, n_thorough=150000, nontrivial=_edits_nontrivial)],
